@@ -8,6 +8,8 @@ import (
 	"fmt"
 	"strings"
 
+	"github.com/ipld/go-storethehash/store/types"
+
 	"verif/sim/simos"
 	"verif/sim/simrt"
 )
@@ -189,10 +191,18 @@ func genC01(seed uint64, tier string) *Plan {
 // Exec runs one plan op in sequential-oracle mode.
 func (d *Driver) Exec(op *Op) {
 	switch op.K {
-	case "put", "reput", "get", "has", "size", "remove", "iter":
+	case "put", "reput", "remove":
 		d.noteBefore(op)
+		before, had := d.ledgerBefore(op)
 		r := d.Call(op)
 		d.CheckSeq(op, r)
+		d.ledgerAfter(op, before, had, r)
+	case "get", "has", "size", "iter":
+		r := d.Call(op)
+		d.CheckSeq(op, r)
+		if op.K == "iter" && r.Err == "" {
+			d.CheckLedger("after iteration (which flushes)")
+		}
 	case "flush":
 		var start *Model
 		if d.Adm != nil {
@@ -205,6 +215,7 @@ func (d *Driver) Exec(op *Op) {
 			if d.FsckOn && d.Viol == nil {
 				d.RunFsck("after Flush", false)
 			}
+			d.CheckLedger("after Flush")
 		}
 	case "reopen":
 		d.Reopen(op)
@@ -280,6 +291,7 @@ func (d *Driver) Reopen(op *Op) {
 		return
 	}
 	d.Probes["reopen"]++
+	d.CheckLedger("after clean restart")
 }
 
 // reopenForks opens the closed store three ways (snapshot kept / deleted /
@@ -412,6 +424,11 @@ func (d *Driver) PrimaryGC(op *Op) {
 		cd = newCountdown(op.B)
 		ctx = cd
 	}
+	var locsBefore map[string]types.Block
+	if d.Ledger != nil && !d.Ledger.concurrent {
+		locsBefore = d.allLocs()
+		defer func() { d.ledgerGC(locsBefore) }()
+	}
 	_, err := mp.GC(ctx, int64(op.A))
 	if !gcErrOK(err) {
 		d.cprobe("primary-gc-error")
@@ -485,6 +502,10 @@ func runSeq(p *Plan, tape *simrt.Tape, opt RunOpt) *RunOut {
 	d := NewDriver(p)
 	d.staticProbes()
 	d.FsckOn = p.x("fsck", 0) == 1
+	if p.x("ledger", 0) == 1 {
+		d.Ledger = newLedger()
+		d.Ledger.installHook(fs)
+	}
 	w, res := world(p, tape, fs, opt, nil, func() {
 		if err := d.Open(); err != nil {
 			d.fail("open-error", "OpenStore failed: %v", err)
@@ -534,6 +555,8 @@ func onlyClass(p *Plan) string {
 	switch p.Prop {
 	case "C07":
 		return "fsck"
+	case "C13":
+		return "ledger"
 	}
 	return ""
 }
